@@ -65,6 +65,20 @@ def validate(run, tier):
         run.extra["ensemble"].append(dict(cfg="half-supported", n_particles=npart, logz_err=round(e, 4), se=round(se, 4)))
         if abs(e) > 4 * se + (0.15 if npart == 32 else 0.04):
             run.fail("evidence-biased", f"half-supported target, {R} seeds, {npart} particles: mean log-evidence error {e:+.3f} (se {se:.3f})", **what)
+    # a bimodal target (mode masses 0.3 / 0.7) with clustering: the evidence is the sum over the modes
+    for npart, Rb in ((64, 48),) if tier == "quick" else ((64, 96), (256, 96)):
+        cfg = dict(clustering=True)
+        res = ens.run_ensemble("bimodal", cfg, Rb, npart, 7600)
+        what = dict(target="bimodal (0.3 / 0.7)", cfg=cfg, runs=Rb, n_particles=npart, seeds="7600..")
+        bad = [r for r in res if not r["ok"]]
+        if bad:
+            run.fail("ensemble-run-raises", f"{len(bad)} of {Rb} runs raised: {bad[0]['err']}", **what)
+            continue
+        run.case(key=("logz-bimodal", npart), nontrivial=True)
+        e, se = ens.stats([r["logz"] for r in res], ens.TARGETS["bimodal"]["logz"])
+        run.extra["ensemble"].append(dict(cfg="bimodal, clustering", n_particles=npart, runs=Rb, logz_err=round(e, 4), se=round(se, 4)))
+        if abs(e) > 4 * se + 0.05:
+            run.fail("evidence-biased", f"bimodal target, {Rb} seeds, {npart} particles: mean log-evidence error {e:+.3f} (se {se:.3f})", **what)
     independence_probe(run)
     run.sample(dict(kind="ensemble", first=run.extra["ensemble"][0]))
 
@@ -134,4 +148,7 @@ def main(tier, seed):
     except Exception:
         import traceback
         run.broken.append(("harness-exception", traceback.format_exc()[-1500:]))
+    run.extra["runs_aborted_by_the_listed_C14_finding"] = list(ens.ABORTED_BY_C14)
+    if len(ens.ABORTED_BY_C14) > 8:
+        run.fail("too-many-aborted-runs", f"{len(ens.ABORTED_BY_C14)} ensemble runs were aborted by LinAlgError in ModeStatistics.from_particles", runs=ens.ABORTED_BY_C14[:10])
     run.finish(search=None)
